@@ -41,6 +41,9 @@ theorem isConcat_shape (x : Expr) : x.shape.isConcat = x.isConcat := by
   cases x with
   | axis n v b e => cases v <;> rfl
   | _ => rfl
+theorem isEllipsis_shape (x : Expr) : x.shape.isEllipsis = x.isEllipsis := by
+  cases x <;> first | rfl | (rename_i n v b e; cases v <;> rfl)
+
 theorem isAxis_shape (x : Expr) : x.shape.isAxis = x.isAxis := by
   cases x with
   | axis n v b e => cases v <;> rfl
@@ -67,7 +70,8 @@ theorem Q_shape (inBr al : Bool) : ∀ x : Expr, Q inBr al x.shape = Q inBr al x
   | .flat i _ _ => by simp only [Expr.shape, Q, isFlat_shape, Q_shape inBr true i]
   | .brackets i _ _ => by simp only [Expr.shape, Q, isBrackets_shape, ndim_shape, Q_shape true true i]
   | .ellipsis i _ _ _ => by
-    simp only [Expr.shape, Q, isAxis_shape, isFlat_shape, isBrackets_shape, isConcat_shape, Q_shape inBr false i]
+    simp only [Expr.shape, Q, isAxis_shape, isFlat_shape, isBrackets_shape, isConcat_shape, isEllipsis_shape,
+      Q_shape inBr false i]
   | .concat cs _ _ => by simp only [Expr.shape, Q, shapeL_length, QL_shapeL inBr cs]
   | .list cs _ _ => by simp only [Expr.shape, Q, shapeL_length, QL_shapeL inBr cs]
   | .args cs _ _ => rfl
@@ -158,7 +162,13 @@ theorem Q_of_PT (inBr al : Bool) : ∀ a : Expr, PT inBr al a = true → Q inBr 
     · cases i with
       | axis n v b e => exact ⟨rfl, rfl⟩
       | _ => simp [isAnonAxisNone] at h
-    · exact ⟨by simpa [ellOperand] using hop, Q_of_PT inBr false i hi⟩
+    · refine ⟨?_, Q_of_PT inBr false i hi⟩
+      simp only [ellOperand, Bool.or_eq_true] at hop
+      simp only [Bool.or_eq_true]
+      rcases hop with hop | hop
+      · exact Or.inl hop
+      · right
+        cases i <;> first | rfl | (simp [isEllAnon] at hop)
   | .concat cs _ _, h => by
     simp only [PT, Bool.and_eq_true] at h
     simp only [Q, Bool.and_eq_true]
